@@ -36,7 +36,7 @@ class Awaiting:
 
     def __enter__(self):
         if self.deferred.is_awaiting:
-            raise DeferredCycle()
+            raise DeferredCycle(Awaiting.awaiting_stack + [self.deferred])
         self.deferred.is_awaiting = True
         Awaiting.awaiting_stack.append(self.deferred)
         return self
@@ -206,12 +206,34 @@ class Deferred(BaseDeferred):
                 # repeat it (and, recursively, everything it depends on)
                 raise NotReadyError()
             try:
-                self.value = self.fn()
+                value = self.fn()
             except NotReadyError:
                 self.not_ready_epoch = Readiness.epoch
                 raise
+            if isinstance(value, BaseDeferred) and self._is_reachable_from(value):
+                # 'a = a', 'a = a + 1', 'a = b' with 'b = a + 1': the value is still symbolic and
+                # stands for this very deferred. Chasing it would never end
+                raise DeferredCycle([self])
+            self.value = value
             self.settled = True
             return self.value
+
+    def _is_reachable_from(self, value):
+        # Follows what is already known without waiting for anything
+        stack = [value]
+        seen = set()
+        while stack:
+            deferred = stack.pop()
+            if deferred is self:
+                return True
+            if id(deferred) in seen:
+                continue
+            seen.add(id(deferred))
+            if isinstance(deferred, LinearPolynomial):
+                stack.extend(deferred.coeffs)
+            elif isinstance(deferred, Deferred) and deferred.settled and isinstance(deferred.value, BaseDeferred):
+                stack.append(deferred.value)
+        return False
 
     def get_current_best_estimate(self):
         if not self.settled:
